@@ -134,6 +134,14 @@ impl<C: CellType> BcInterpreter<C> {
     }
 }
 
+#[cfg(feature = "verif-hooks")]
+impl<C: CellType> BcInterpreter<C> {
+    /// Verification hook: read-only access to the bytecode this executor runs.
+    pub fn verif_bytecode(&self) -> &bc::Program<C> {
+        &self.bytecode
+    }
+}
+
 impl<C: CellType> Executor<'_, C> for BcInterpreter<C> {
     fn create(code: &str, opt: u32) -> Result<Self, Error> {
         let mut program = ir::Program::<C>::parse(code)?;
